@@ -33,6 +33,7 @@ RULE += (' Also: end-of-iteration exceptions raised by user callables or thrown 
 RULE += (' Also: a class-based source that reports its remaining length (sized shortcuts still own and close it).')
 RULE += (' Also: one of several inputs that is not iterable at all - the tool that reports it has ended and lets go of the others; groupby keys failing with Stop(Async)Iteration / GeneratorExit / RuntimeError.')
 RULE += (' Also: class sources whose aclose is a plain method handing back a future-like close job.')
+RULE += (' Also: adapters that offer aclose only once they were advanced are closed when the tool ends.')
 ASSUMPTIONS = ["sources' own aclose never suspends or fails", "sync iterables have nothing to release",
                "a generator-based tool closed before its first step runs no code (language semantics): sources need "
                "not be closed then, except for handles that advertise eager closing (chain, tee, groupby)"]
@@ -138,10 +139,12 @@ def _leaks(side, spec, flavs, outer_flav):
     n_closable = 0
     for st, f in pairs:
         # (the iterator a tool draws from an async ITERABLE is the tool's own as well)
-        if f not in ("async_gen", "async_class", "async_class_full", "async_class_proxy", "async_class_future", "async_iterable", "async_class_sized", "async_class_closejob"):
+        if f not in ("async_gen", "async_class", "async_class_full", "async_class_proxy", "async_class_future", "async_iterable", "async_class_sized", "async_class_closejob", "async_class_lateclose"):
             continue
         if f == "async_iterable" and not st.given:
             continue  # never asked for an iterator: there is nothing anybody could own
+        if f == "async_class_lateclose" and not st.started:
+            continue  # (an adapter that was never advanced has not opened anything yet: nothing to close)
         n_closable += 1
         if not st.released():
             leaked.append(st.sid)
